@@ -4,7 +4,7 @@ CONSTANTS
   Caps <- TinyCaps
   Files <- TinyFiles
   MaxK = 4
-  Lossy = TRUE
-  Forgetful = FALSE
+  Lossy = FALSE
+  Forgetful = TRUE
 INVARIANTS TypeOK I_W3 I_Writer I_Buffer I_DevLog
 CHECK_DEADLOCK TRUE
